@@ -36,7 +36,7 @@ from . import common
 PROP = "C14"
 NFEAT = 6                       # feature universe userdef0 .. userdef5
 NEV = 3                         # events per file
-TIME_LIMIT = 20                 # seconds per case (termination observation)
+TIME_LIMIT = 15                 # seconds per case (termination observation)
 KINDS = ["internal", "file", "http", "s3", "dcor", "remote-hdf5",
          "internal-hdf5"]
 # (dict "type", dict "format")
@@ -78,8 +78,8 @@ ASSUMPTIONS = [
     "type/format combinations listed in RULE; internal basins are mapped "
     "and declare their features (the constructor rejects anything else)",
     "every mapped basin's basinmap feature is stored in the referring file",
-    "the check needs the two proposed fixes (fixes_proposed/C14-*.diff) in "
-    "the tree under test; on the tree without them it reports the violation",
+    "the model follows the tree with the fixes 28899f0 and 960b418; on a "
+    "tree without them the check reports the violations (corpus 01-04)",
 ]
 
 HEADER = ("From Coq Require Import ZArith List.\nImport ListNotations.\n"
@@ -932,7 +932,9 @@ def run_one(case):
         port = _W["port"]
         urlroot = "%s/c%d/data" % (_W["rel"], _W["n"])
         paths, keyorder = write_world(case, base, (port, urlroot))
+        t0 = time.time()
         res = observe(case, base, (port, urlroot))
+        res["elapsed"] = round(time.time() - t0, 2)
     finally:
         shutil.rmtree(base, ignore_errors=True)
     return res, keyorder
@@ -949,7 +951,13 @@ def _work(chunk):
     return out
 
 
-def run_cases(scratch, cases, nproc=None):
+SKIPPED = (dict(status=4, fb=[], contains=[], source=[], touched=[],
+                followed=0), None)
+
+
+def run_cases(scratch, cases, nproc=None, budget=None):
+    """Evaluate the cases in worker processes.  `budget` (seconds): cases
+    whose chunk has not finished by then are returned as SKIPPED."""
     nproc = nproc or min(common.NCPU, 16)
     ctx = multiprocessing.get_context("fork")
     chunks = []
@@ -957,18 +965,25 @@ def run_cases(scratch, cases, nproc=None):
     for k in range(0, len(cases), size):
         chunks.append(cases[k:k + size])
     out = []
+    t_end = None if budget is None else time.time() + budget
     procs, ports = start_servers(scratch, 1 if nproc == 1 else 4)
     try:
         with ctx.Pool(nproc, initializer=_worker_init,
                       initargs=(scratch, ports)) as pool:
             asyncs = [pool.apply_async(_work, (ch,)) for ch in chunks]
             for ch, a in zip(chunks, asyncs):
+                limit = TIME_LIMIT * len(ch) + 120
+                if t_end is not None:
+                    limit = min(limit, max(0.05, t_end - time.time()))
                 try:
-                    out.extend(a.get(timeout=TIME_LIMIT * len(ch) + 120))
+                    out.extend(a.get(timeout=limit))
                 except multiprocessing.TimeoutError:
-                    out.extend([(dict(status=1, fb=[], contains=[],
-                                      source=[], touched=[], followed=0),
-                                 None)] * len(ch))
+                    if t_end is not None and time.time() >= t_end - 0.1:
+                        out.extend([SKIPPED] * len(ch))
+                    else:
+                        out.extend([(dict(status=1, fb=[], contains=[],
+                                          source=[], touched=[],
+                                          followed=0), None)] * len(ch))
             pool.terminate()
     finally:
         for p in procs:
@@ -978,7 +993,15 @@ def run_cases(scratch, cases, nproc=None):
 
 # --------------------------------------------------------------------------
 def check_cases(run, cases, record=True):
-    results = run_cases(run.scratch, cases)
+    results = run_cases(run.scratch, cases,
+                        budget=2400 if run.thorough else 200)
+    skipped = set(k for k, r in enumerate(results) if r[0]["status"] == 4)
+    if skipped:
+        run.notes.append("%d of %d cases not evaluated (time budget of the "
+                         "tier used up)" % (len(skipped), len(cases)))
+        run.count("skipped-time-budget", len(skipped))
+        cases = [c for k, c in enumerate(cases) if k not in skipped]
+        results = [r for r in results if r[0]["status"] != 4]
     known = run.finding_ids()
 
     def model_of(idx):
@@ -1003,9 +1026,10 @@ def check_cases(run, cases, record=True):
     # (only a bounded number: a systematic failure does not need it)
     again = again[:24]
     if again:
-        redo = run_cases(run.scratch, [cases[k] for k in again], nproc=4)
+        redo = run_cases(run.scratch, [cases[k] for k in again], nproc=8,
+                         budget=90)
         for k, r in zip(again, redo):
-            if r[1] is not None and r[0]["status"] != 3:
+            if r[1] is not None and r[0]["status"] not in (3, 4):
                 if flat_impl(r[0]) != flat_impl(results[k][0]):
                     run.count("unstable-observation")
                 results[k] = r
